@@ -196,6 +196,23 @@ def is_known(findings, text, name, v):
     return None
 
 
+LARGE = 6000          # repr length above which a value is "large" for the Coq run
+_large_left = [300000]
+
+
+def model_case(ctx, b, case):
+    """Queue a case for the Coq model.  Type checking a 70000-element list
+    literal costs Coq seconds, so large values share a fixed budget per run
+    (all of them are still checked on /repo against the oracle)."""
+    n = len(repr(case[1]))
+    if n > LARGE:
+        if n > _large_left[0]:
+            ctx.count('model-skipped-large-value')
+            return
+        _large_left[0] -= n
+    b.cases.append(case)
+
+
 def run_module(ctx, mod, em, text, g, given_values, budget, batches, dec_budget):
     rng = ctx.rng
     rt = gen_asn1.make_resolver(em)
@@ -240,7 +257,7 @@ def run_module(ctx, mod, em, text, g, given_values, budget, batches, dec_budget)
         ctx.case(('case', gen_asn1.shape(rt, t)[:40], label, exp[0]),
                  dict(kind='encode', type=name, label=label, value=repr(v)[:120], expected=exp[0], path=exp[1]))
         ctx.count('mut:' + label.split(':')[0] + ':' + exp[0])
-        b.cases.append((name, v, label, obs.get('ber')))
+        model_case(ctx, b, (name, v, label, obs.get('ber')))
         # after-decode call
         if dec_budget[0] > 0 and label != 'base' and rng.random() < .5:
             dec_budget[0] -= 1
@@ -270,7 +287,7 @@ def run_module(ctx, mod, em, text, g, given_values, budget, batches, dec_budget)
                                        expected=list(exp2)))
                     break
                 if c == 'ber':
-                    b.cases.append((name, v2, 'decoded', got))
+                    model_case(ctx, b, (name, v2, 'decoded', got))
     batches.append(b)
 
 
